@@ -90,6 +90,15 @@ def gen(rng: Any, prop: str, tier: str) -> dict[str, Any]:
             restarted = True
         d = rng.choice(DB_ARGS)
         s = rng.choice(SCHEMA_ARGS)
+        ctx0 = g.m.session_ctx(sid) if sid in g.m.sessions and not g.m.sessions[sid].get("closed") else (None, None)
+        if (rng.random() < 0.25 and ctx0[0] and ctx0[1] and ctx0[1] != "INFORMATION_SCHEMA" and g.m.sessions.get("root") and not g.m.detached
+                and not g.m.dbs[ctx0[0]][ctx0[1]]["tables"] and not g.m.dbs[ctx0[0]][ctx0[1]]["views"]
+                and not any(g.m.session_ctx(x) == ctx0 for x in g.m.sessions if x != sid and not g.m.sessions[x].get("closed"))):
+            # the session leaves, its (empty) schema is dropped, and the very same names are connected to again
+            g.ops.append({"s": sid, "k": "close"})
+            g.m.close(sid)
+            g.exec("root", {"t": "drop_schema", "db": ctx0[0], "name": ctx0[1]})
+            d, s = rng.choice([ctx0[0], ctx0[0].lower()]), rng.choice([ctx0[1], ctx0[1].lower()])
         g.ops.append({"s": sid, "k": "connect", "database": d, "schema": s, "cfg": True})
         g.m.connect(sid, d, s)
         # probe the context with an unqualified statement, then use the session a little
@@ -109,6 +118,13 @@ def gen(rng: Any, prop: str, tier: str) -> dict[str, Any]:
             tables = [t for t in g.all_tables() if t[2] == t[2].upper()]  # unquoted references only reach upper-case names (identifier case is C02's subject, not claimed)
             if tables:
                 g.exec(sid, {"t": "select", "ref": list(rng.choice(tables))})
+        elif r < 0.8 and g.m.sessions.get("root") and not g.m.detached:
+            # a schema disappears again (one that no live session is in, and empty): a later connect() naming it starts from scratch
+            used = {g.m.session_ctx(x) for x in g.m.sessions}
+            cand = [(d2, s2) for d2, s2 in g.all_schemas() if (d2, s2) not in used and not g.m.dbs[d2][s2]["tables"] and not g.m.dbs[d2][s2]["views"] and s2 != "INFORMATION_SCHEMA"]
+            if cand:
+                d2, s2 = rng.choice(cand)
+                g.exec("root", {"t": "drop_schema", "db": d2, "name": s2})
     return {"profile": NAME, "config": {"create_db": create_db, "create_schema": create_schema, "storage": storage, "fs_opts": fs_opts}, "strategy": "serial", "ops": g.ops}
 
 
